@@ -14,7 +14,9 @@ package qbft
 import (
 	"context"
 	"crypto/sha256"
+	"encoding/json"
 	"fmt"
+	"sort"
 	"sync"
 	"testing"
 	"testing/synctest"
@@ -87,7 +89,40 @@ func runDecidedValue(t *testing.T, rt *rapid.T) {
 	}
 	shape := rapid.SampledFrom([]string{"ordinary", "priority_vs_data", "other_message_type", "one_bad_entry", "all_bad_entries", "other_duty_types_set"}).Draw(rt, "leaderValue")
 	badBytes := func(valid []byte) []byte {
-		switch rapid.IntRange(0, 5).Draw(rt, "badKind") {
+		switch rapid.IntRange(0, 7).Draw(rt, "badKind") {
+		case 6, 7: // the value's JSON form with one top-level member null or missing (structurally incomplete)
+			base := typ
+			if typ == core.DutyInfoSync {
+				base = types[0]
+			}
+			set, err := core.UnsignedDataSetFromProto(base, &pbv1.UnsignedDataSet{Set: map[string][]byte{"0x" + fmt.Sprintf("%096x", 1): valid}})
+			if err != nil {
+				return []byte("{}")
+			}
+			for _, v := range set {
+				js, err := json.Marshal(v)
+				if err != nil {
+					return []byte("{}")
+				}
+				var obj map[string]json.RawMessage
+				if json.Unmarshal(js, &obj) != nil || len(obj) == 0 {
+					return js
+				}
+				var keys []string
+				for k := range obj {
+					keys = append(keys, k)
+				}
+				sort.Strings(keys)
+				k := keys[rapid.IntRange(0, len(keys)-1).Draw(rt, "jsonMember")]
+				if rapid.Bool().Draw(rt, "nullOrMissing") {
+					obj[k] = json.RawMessage("null")
+				} else {
+					delete(obj, k)
+				}
+				out, _ := json.Marshal(obj)
+				return out
+			}
+			return []byte("{}")
 		case 0:
 			return nil
 		case 1:
@@ -139,6 +174,9 @@ func runDecidedValue(t *testing.T, rt *rapid.T) {
 		odd = pb
 	}
 
+	// half of the cases run with the opt-in comparison of the leader's attestation data with the node's own
+	// (it reads the leader's decoded value on the consensus goroutine, before anything is decided)
+	compareOn := rapid.Bool().Draw(rt, "compareAttestations")
 	var peers []p2p.Peer
 	idxOf := map[peer.ID]int{}
 	for i := 0; i < n; i++ {
@@ -170,7 +208,7 @@ func runDecidedValue(t *testing.T, rt *rapid.T) {
 	stored, storeErrs, priorities := 0, 0, 0
 	var comps []*Consensus
 	for i := 0; i < n; i++ {
-		c, err := NewConsensus(ctx, bn, net.Host(peers[i].ID), new(p2p.Sender), peers, wireKey(n, i), wireDeadliner{}, func(core.Duty) bool { return true }, func(*pbv1.SniffedConsensusInstance) {}, false)
+		c, err := NewConsensus(ctx, bn, net.Host(peers[i].ID), new(p2p.Sender), peers, wireKey(n, i), wireDeadliner{}, func(core.Duty) bool { return true }, func(*pbv1.SniffedConsensusInstance) {}, compareOn)
 		if err != nil {
 			panic("HARNESS-ERROR: NewConsensus: " + err.Error())
 		}
@@ -277,16 +315,19 @@ func runDecidedValue(t *testing.T, rt *rapid.T) {
 	synctest.Wait()
 	mu.Lock()
 	defer mu.Unlock()
-	if shape == "ordinary" && typ != core.DutyInfoSync && oddSender >= 0 && stored+storeErrs < n-1 {
+	// (with the comparison on, members whose own attestation data differs from the leader's legitimately do not
+	// vote: the two liveness clauses below only hold with the comparison off)
+	compareBlocks := compareOn && typ == core.DutyAttester
+	if shape == "ordinary" && typ != core.DutyInfoSync && oddSender >= 0 && stored+storeErrs < n-1 && !compareBlocks {
 		rt.Fatalf("NOT HANDLED SAFELY: member %d sent %d structurally odd (validly signed) consensus messages; the leader's ordinary %s data set then reached the duty store of only %d of the %d other nodes", oddSender, oddSent, typ, stored+storeErrs, n-1)
 	}
-	if shape == "ordinary" && typ != core.DutyInfoSync && oddSender < 0 && stored+storeErrs < n {
+	if shape == "ordinary" && typ != core.DutyInfoSync && oddSender < 0 && stored+storeErrs < n && !compareBlocks {
 		// positive control: the harness does reach the decide callbacks (the store may still refuse a
 		// generated value for reasons of its own, e.g. an aggregate with several committee bits)
 		rt.Fatalf("CONTROL: an ordinary %s data set proposed by the leader reached the duty store of %d of %d nodes", typ, stored+storeErrs, n)
 	}
 	decidedSomething := stored+storeErrs+priorities > 0
-	vstat.Case(fmt.Sprintf("decided/%s/%s/%d/%d", typ, shape, slot, seed), shape != "ordinary" && decidedSomething, "decided_value", "decided_value_shape:"+shape, "decided_value_duty:"+typ.String(), clsW("odd_wire_messages_from_one_member", oddSender >= 0), clsW("decided_value_store_refused", storeErrs > 0), clsW("decided_value_stored", stored > 0))
+	vstat.Case(fmt.Sprintf("decided/%s/%s/%d/%d", typ, shape, slot, seed), shape != "ordinary" && decidedSomething, "decided_value", "decided_value_shape:"+shape, "decided_value_duty:"+typ.String(), clsW("odd_wire_messages_from_one_member", oddSender >= 0), clsW("decided_value_store_refused", storeErrs > 0), clsW("decided_value_stored", stored > 0), clsW("attestation_comparison_on", compareOn))
 	if shape != "ordinary" && vstat.WantSample("decided_value:"+shape) {
 		vstat.Sample("decided_value:"+shape, map[string]any{"duty": duty.String(), "leader_value": shape, "stored_by_nodes": stored, "store_refused_by_nodes": storeErrs, "priority_callbacks": priorities})
 	}
